@@ -44,7 +44,7 @@ def kap():
 
 def gen_case(rng, tier):
     n = rng.choice([1, 2, 2, 3, 3, 4])
-    opts = kgen.Opts(p_part=rng.choice([0.5, 0.8, 0.95]), id_pool=3, fancy_ids=rng.random() < 0.3, ts_style='small',
+    opts = kgen.Opts(unordered_pairs=0.3, p_part=rng.choice([0.5, 0.8, 0.95]), id_pool=3, fancy_ids=rng.random() < 0.3, ts_style='small',
                      max_rows=4, image_pool=4, partial_poses=False, dtypes=['float32'],
                      cols=rng.choice([3, 6]))
     if rng.random() < 0.35:
